@@ -167,7 +167,7 @@ def _check_property(a, pid, t0, work, viol_dir):
 
     if a.replay:
         rp = json.load(open(a.replay))
-        scenarios = [rp['scenario']] + rp.get('extra', [])
+        scenarios = rp.get('pre', []) + [rp['scenario']] + rp.get('extra', [])
     else:
         gen = getattr(G, 'gen_' + pid)
         import inspect
@@ -222,6 +222,10 @@ def _check_property(a, pid, t0, work, viol_dir):
         for k, rid, x in new:
             if rid not in seen and rid in by_id:
                 seen.add(rid)
+                # meta.after: the connection served just before this one by the same thread is part of the scenario
+                pre = by_id[rid].get('meta', {}).get('after')
+                if pre and pre in by_id and by_id[pre] not in redo:
+                    redo.append(by_id[pre])
                 redo.append(by_id[rid])
         redo = redo[:40]
         for sc in list(redo):
@@ -240,8 +244,9 @@ def _check_property(a, pid, t0, work, viol_dir):
             path = os.path.join(viol_dir, '%s-%s.json' % (pid, h))
             with open(path, 'w') as f:
                 tw = (by_id.get(rid) or {}).get('meta', {}).get('twin')
+                pre = (by_id.get(rid) or {}).get('meta', {}).get('after')
                 json.dump({'property': pid, 'key': k, 'violation': x, 'scenario': by_id.get(rid), 'verdict': byrun[rid],
-                           'extra': [by_id[tw]] if tw in by_id else []}, f)
+                           'extra': [by_id[tw]] if tw in by_id else [], 'pre': [by_id[pre]] if pre in by_id else []}, f)
             print('VIOLATION property=%s replay=%s' % (pid, path))
             R.log('   %s (run %s)' % (k, rid))
             rc = 1
